@@ -130,6 +130,7 @@ func main() {
 	genUtilFormat()
 	genUrlTables()
 	genRequireGlue()
+	genBufferMethods()
 }
 
 // exprString / stmtsString: canonical whitespace-free rendering of AST fragments used for shape matching.
@@ -167,6 +168,25 @@ func squeeze(s string) string {
 		if c == '"' || c == '\'' || c == '`' {
 			inStr = c
 			sb.WriteByte(c)
+			continue
+		}
+		if c == '\n' {
+			// statement separator inside blocks
+			last := byte(0)
+			if sb.Len() > 0 {
+				last = sb.String()[sb.Len()-1]
+			}
+			j := i + 1
+			for j < len(s) && (s[j] == ' ' || s[j] == '\t' || s[j] == '\n' || s[j] == '\r') {
+				j++
+			}
+			next := byte(0)
+			if j < len(s) {
+				next = s[j]
+			}
+			if last != 0 && !strings.ContainsRune("{;(,|&+-*/=<>!:", rune(last)) && next != '}' && next != ')' && next != 0 {
+				sb.WriteByte(';')
+			}
 			continue
 		}
 		if c == ' ' || c == '\t' || c == '\n' || c == '\r' {
